@@ -19,10 +19,24 @@ def jobs(tier):
                    defines=["-DH_INCLUDE_NEW_PARAMETER"], unwind=4, union_struct=True, kind="proof",
                    functions=["check_single_frequency_range", "_vnacal_get_parameter_frange (correlated: sigma grid)"],
                    bound="none: all doubles (two-point sigma grid, scalar guess)", timeout=900))
+    # every parameter of the collection is checked: the vector parameter's handle (bucket) and the number of parameters enumerated
+    for vec, npar in ((3, 3), (7, 2), (1, 5), (4, 2)) if tier == "quick" else [(v, n) for v in (1, 2, 3, 4, 7) for n in (2, 3, 5)]:
+        J.append(V.Job("range.all.vec%d_n%d" % (vec, npar), H, "h_range_all",
+                       ["vnacal_parameter.c", "vnacal_layout.c"] + ERR,
+                       defines=["-DH_INCLUDE_NEW_PARAMETER", "-DVERIF_BUILTIN_MEM", "-DVEC_INDEX=%d" % vec, "-DALL_NPARAM=%d" % npar],
+                       unwind=10, union_struct=True, kind="bounded", canary=((vec, npar) == (3, 3)),
+                       functions=["_vnacal_new_check_all_frequency_ranges", "check_single_frequency_range", "hash_insert"],
+                       bound="collection of %d parameters (scalars + one vector parameter with handle %d, 8 buckets); all four range values: all doubles" % (npar, vec),
+                       timeout=600))
     J.append(V.Job("range.m_error", H, "h_range_m_error",
                    ["vnacal_new_set_m_error.c", "vnacal_layout.c"] + ERR,
                    defines=["-DH_M_ERROR"], unwind=4, union_struct=True, kind="proof", canary=True,
                    functions=["vnacal_new_set_m_error"], bound="none: all doubles (two-point noise grid)",
+                   timeout=900))
+    J.append(V.Job("range.m_error_one_point", H, "h_m_error_one_point",
+                   ["vnacal_new_set_m_error.c", "vnacal_layout.c"] + ERR,
+                   defines=["-DH_M_ERROR"], unwind=4, union_struct=True, kind="proof", canary=True,
+                   functions=["vnacal_new_set_m_error"], bound="none: all doubles (single noise point, frequency vector given or NULL)",
                    timeout=900))
     J.append(V.Job("range.apply_bounds", H, "h_range_apply_bounds", ["vnacal_calibration.c"],
                    defines=["-DH_APPLY_BOUNDS"], unwind=4, union_struct=True, kind="proof", canary=True,
